@@ -884,3 +884,11 @@ def run(ctx, R):
     r146(ctx, R)
     r147(ctx, R)
     r148(ctx, R)
+    # R14.9: the pre-1.29 restriction (at most one provider per tree) is
+    # applied to the merged candidates, after the groups were combined (the
+    # pipeline obligations of R20.3) - applied per group it cannot see two
+    # groups landing on different providers of one tree
+    from psa.rules import c20
+    n9 = C.reuse_obligations(ctx, R, c20._run_c20, 'R14.9',
+                             select=lambda o: o.rule == 'R20.3')
+    R.count('R14.9', n9, 2)
